@@ -211,7 +211,25 @@ def unit_alias_arg(prop):
     return unit
 
 
+def unit_std(prop, which):
+    def unit(tier, known):
+        from contracts import standardize as C
+        if which == "accumulate_vector":
+            return run_contract(prop, ("post", "Standardize._accumulate_vector"), C.contract_accumulate_vector(),
+                                [("first", C.setup_acc(False)), ("further", C.setup_acc(True))], name="std_accumulate_vector", fname="Standardize._accumulate_vector",
+                                to_case=C.to_case, replay_module="rtc.c16")
+        if which == "have_stats":
+            return run_contract(prop, ("post", "Standardize.have_stats"), C.contract_have_stats(), [("none", C.setup_have(False)), ("some", C.setup_have(True))],
+                                name="std_have_stats", fname="Standardize.have_stats", to_case=C.to_case, replay_module="rtc.c16")
+        return run_contract(prop, ("post", "Standardize._apply_vector"), C.contract_apply_vector(), [("", C.setup_apply)], name="std_apply_vector",
+                            fname="Standardize._apply_vector", to_case=C.to_case, replay_module="rtc.c16")
+    unit.__name__ = "std_" + which
+    return unit
+
+
 UNITS = {
+    "C16": [unit_std("C16", "accumulate_vector"), unit_std("C16", "apply_vector"), unit_std("C16", "have_stats")],
+    "C17": [unit_std("C17", "accumulate_vector"), _lazy("contracts.standardize", "unit_sanitize_accepts_saved", "C17")],
     "C08": [unit_alias_arg("C08")],
     "C18": [unit_pre("C18", "preemph"), unit_pre("C18", "dither")],
     "C12": [unit_copy_samples("C12"), _lazy("contracts.sphere", "unit_g711", "C12")],
